@@ -66,8 +66,9 @@ def gen_data(rng, method, n=None, m=None, extra=None, declared=None, positive=Fa
     elif method == 'majorityHeuristic':
         mp = {'weights': {c: PU * rng.choice([1, 2, 3, 5]) for c in cs}, 'randomSeed': rng.randint(0, 999),
               'drawResolution': rng.choice(['allow', 'current', 'newer', 'random'])}
-        if rng.random() < 0.4:
-            mp['currentChoice'] = rng.choice(chose + [a['id'] for a in known])
+        if rng.random() < 0.5:      # current choice among the considered, or a known alternative that is not considered
+            outside = [a['id'] for a in known if a['id'] not in chose]
+            mp['currentChoice'] = rng.choice(outside) if outside and rng.random() < 0.5 else rng.choice(chose)
     else:
         inc = method == 'aspectEliminationHeuristic'
         if rng.random() < 0.5:
@@ -89,8 +90,9 @@ def gen_data(rng, method, n=None, m=None, extra=None, declared=None, positive=Fa
         if inc:
             ws = rng.sample([1, 2, 3, 5, 7, 9], m)
             mp['weights'] = {c: PU * w for c, w in zip(cs, ws)}
-        elif rng.random() < 0.4:
-            mp['currentChoice'] = rng.choice(chose + [a['id'] for a in known])
+        elif rng.random() < 0.5:
+            outside = [a['id'] for a in known if a['id'] not in chose]
+            mp['currentChoice'] = rng.choice(outside) if outside and rng.random() < 0.5 else rng.choice(chose)
     # method parameters may hold entries for criteria that are not declared (allowed input)
     if rng.random() < 0.15:
         if method in ('majorityHeuristic', 'aspectEliminationHeuristic'):
